@@ -252,3 +252,32 @@ var corpus = [][2]string{
 	{"http://a/b/c/d;p?q", "g?y/./x"}, {"http://a/b/c/d;p?q", "g?y/../x"}, {"http://a/b/c/d;p?q", "g#s/./x"}, {"http://a/b/c/d;p?q", "g#s/../x"},
 	{"http://a/b/c/d;p?q", "http:g"},
 }
+
+// chainCorpus: histories on one ParsedIRI (base, then references resolved one after the other).
+var chainCorpus = [][]string{
+	{"app:/data/doc.ttl", "http://example.org/a/b", "c"},
+	{"app:/data/doc.ttl", "http://example.org/a/b", "../c?q#f"},
+	{"app:/data/doc.ttl", "//example.org/a/b", "/c"},
+	{"urn:example:doc", "#section", "http://example.org/a/b/", "c/d"},
+	{"tag:", "https://example.org/x/y?z", "w", "./"},
+	{"http://a/b/c/d;p?q", "../g", "h/./i", "?y", "#s"},
+	{"http://h/a#", "b#x", "c"},
+	{"http://h/a", "b#", "c#y", "d"},
+	{"file:///a/b", "c", "//h/d", "e"},
+	{"urn:a/b/c", "d", "x://h/p/q", "../r"},
+}
+
+// chainSticky: predicate of the chain-only class chain-sticky-empty-fragment (mirror of
+// RdfModel.C12.chainStickyEmptyFragment): the base or a reference of an earlier step ended with '#'
+// and this step's reference has no fragment.
+func chainSticky(earlier []string, ref string) bool {
+	if rfcSplit(ref).hasFragment {
+		return false
+	}
+	for _, e := range earlier {
+		if strings.HasSuffix(e, "#") {
+			return true
+		}
+	}
+	return false
+}
